@@ -90,7 +90,8 @@ def run(ck):
                       "real data races are observable only at run time (TSan stress in the thorough tier); the theorem is about the interleaving model"]
     # threads that "sample random polynomials at the same time": the samplers themselves must keep no state of their own (C17 runs every sampler
     # kind concurrently and audits the writable statics of the binary)
-    vf.run_deps(ck, ['C17'])
+    # ... and every request, whatever its length (multi-megabyte ones included), takes exactly one nonce: C13's histories
+    vf.run_deps(ck, ['C17', 'C13'])
     return ck.finish(trusted=["coqc 8.16.1 kernel", "extraction + driver.ml", "h_prngconc.cpp cooperative scheduler + hook points (NFLLIB_VERIF)", "ThreadSanitizer (thorough)"])
 
 def replay(ck, rec):
